@@ -128,9 +128,16 @@ Definition check_case (c : case) : bool :=
   match fin with
   | None => true
   | Some (rootn, tree) =>
+      let dump := snd (last os (true, true, [])) in
+      let im := view (sz_of dump) (start_of dump) s in
       otrees_eqb (map otree_of (expected t)) tree &&
       otrees_eqb (map otree_of (expected (logical s))) tree &&
-      (rootn =? 2 + ldirs t + b2z (moved_live s))
+      (rootn =? 2 + ldirs t + b2z (moved_live s)) &&
+      (* the model's own reader on the model's image agrees with the Python reader on the bytes *)
+      match read_dir im (fuel_of s) true (start_of dump) with
+      | Some (n, tr) => (n =? rootn) && otrees_eqb (map otree_of tr) tree
+      | None => false
+      end
   end.
 
 Fixpoint bad_reloc_cases (k : nat) (cs : list case) : list nat :=
